@@ -279,7 +279,7 @@ impl<R: RealNumberInternalTrait> Number<R> {
             Number::Real(num) => Number::Real(num.floor()),
             Number::Rational(a, b) => Number::Integer({
                 let quot = a / b;
-                if quot >= 0 || quot * b == a {
+                if quot * b == a || (a < 0) == (b < 0) {
                     quot
                 } else {
                     quot - 1
@@ -294,7 +294,7 @@ impl<R: RealNumberInternalTrait> Number<R> {
             Number::Real(num) => Number::Real(num.ceil()),
             Number::Rational(a, b) => Number::Integer({
                 let quot = a / b;
-                if quot <= 0 || quot * b == a {
+                if quot * b == a || (a < 0) != (b < 0) {
                     quot
                 } else {
                     quot + 1
